@@ -122,11 +122,19 @@ def specIsEnum (decl : List Const) (v : Int) : Bool := decl.any (fun c => c.val 
 /-- observation of a decode method as the property sees it -/
 def Dec.obs (d : Dec) : Bool × Int := (d.1.isNone, d.2)
 
-/-- IsEnum probes: an integer outside the kind whose wrapped image is declared ⇒ `F_isenum_trunc`
-    (the property quantifies over "every integer"; IsEnum is documented as the check to run on raw
-    input BEFORE casting, so out-of-range integers are its very domain) -/
-def F_isenum_trunc (k : Kind) (decl : List Const) (probes : List Int) : Bool :=
-  probes.any (fun p => !k.has p && decl.any (fun c => c.val = wrap k p))
+/-- IsEnum probes `(kV, p)`: `p` an integer of the type TV of kind `kV`.  Since /repo ffb3b3d the
+    conversion must round-trip (`v == T(p) && TV(v) == p`), which rules out truncation; what is left
+    is reinterpretation of the sign: a declared value and a probe of OPPOSITE sign that are the same
+    bit pattern both ways (`IsEnum[T, uint8](255)` for `type T int8` with the constant -1;
+    `IsEnum[T, int8](-1)` for `type T uint8` with the constant 255) ⇒ `F_isenum_sign`.  The property
+    quantifies over every integer and 255 is not a declared value of T, so this is inside it. -/
+def F_isenum_sign (kT : Kind) (decl : List Const) (probes : List (Kind × Int)) : Bool :=
+  probes.any (fun p => decl.any (fun c =>
+    (decide (c.val < 0) != decide (p.2 < 0)) && c.val == wrap kT p.2 && wrap p.1 c.val == p.2))
+
+/-- a probe is a value of its own type -/
+def probesOK (probes : List (Kind × Int)) : Bool :=
+  probes.all (fun p => decide (0 < p.1.bits) && p.1.has p.2)
 
 /-! ## C14 -/
 namespace Bit
